@@ -1,6 +1,7 @@
 package variants
 
 import (
+	"reflect"
 	"time"
 
 	cconv "github.com/pip-services3-gox/pip-services3-commons-gox/convert"
@@ -430,7 +431,32 @@ func (c *Variant) Equals(obj *Variant) bool {
 	if value1 == nil || value2 == nil {
 		return value1 == value2
 	}
-	return c.typ == obj.typ && value1 == value2
+	if c.typ != obj.typ {
+		return false
+	}
+	// Arrays are equal when they have equal elements
+	if c.typ == Array {
+		array1 := c.AsArray()
+		array2 := obj.AsArray()
+		if len(array1) != len(array2) {
+			return false
+		}
+		for index := range array1 {
+			if array1[index] == nil || array2[index] == nil {
+				if array1[index] != array2[index] {
+					return false
+				}
+			} else if !array1[index].Equals(array2[index]) {
+				return false
+			}
+		}
+		return true
+	}
+	// Values of uncomparable types (maps, slices) cannot be compared with ==
+	if !reflect.TypeOf(value1).Comparable() || !reflect.TypeOf(value2).Comparable() {
+		return reflect.DeepEqual(value1, value2)
+	}
+	return value1 == value2
 }
 
 // Clone the variant value
